@@ -232,6 +232,48 @@ def gunzip (bs : Bytes) : Option Bytes :=
       else some data
   | _ => none
 
+/-- ONE gzip member at the start of `bs` (RFC 1952 §2.3): exactly the acceptance of `gunzip` (same header fields,
+    DEFLATE, CRC-32 and ISIZE checked); returns the member's data and the bytes AFTER its 8-byte trailer.
+    `gunzip bs = (gunzipMember bs).map (·.1)` (`Props/C12Gzip.lean`, `gunzip_eq_gunzipMember`). -/
+def gunzipMember (bs : Bytes) : Option (Bytes × Bytes) :=
+  match bs with
+  | 0x1f :: 0x8b :: 8 :: flg :: _ :: _ :: _ :: _ :: _ :: _ :: rest =>
+    let r1 : Option Bytes := if flg / 4 % 2 == 1 then
+        (match rest with | a :: b :: r => let n := a + 256 * b; if r.length < n then none else some (r.drop n) | _ => none)
+      else some rest
+    let r2 := r1.bind (fun r => if flg / 8 % 2 == 1 then dropZ r else some r)
+    let r3 := r2.bind (fun r => if flg / 16 % 2 == 1 then dropZ r else some r)
+    let r4 := r3.bind (fun r => if flg / 2 % 2 == 1 then (if r.length < 2 then none else some (r.drop 2)) else some r)
+    match r4.bind inflate with
+    | none => none
+    | some (data, tail) =>
+      if tail.length < 8 then none
+      else if ofLe (tail.take 4) != crc32 data then none
+      else if ofLe ((tail.drop 4).take 4) != data.length % 4294967296 then none
+      else some (data, tail.drop 8)
+  | _ => none
+
+/-- members one after another until the input is used up (every member takes at least its 18 bytes of header and
+    trailer, so `fuel` = length + 1 is never the reason for `none`: `gunzipAllAux_fuel` in `Lemmas/GzipMulti.lean`) -/
+def gunzipAllAux : Nat → Bytes → Option Bytes
+  | 0, _ => none
+  | fuel + 1, bs =>
+    match gunzipMember bs with
+    | none => none
+    | some (data, rest) =>
+      if rest.isEmpty then some data
+      else match gunzipAllAux fuel rest with
+        | none => none
+        | some more => some (data ++ more)
+
+/-- a whole gzip FILE (RFC 1952 §2.2: "A gzip file consists of a series of members (compressed data sets). … The
+    members simply appear one after another in the file, with no additional information before, between, or after
+    them."): one or more members, each accepted as by `gunzip`, nothing else anywhere; the result is the concatenation
+    of the members' data — what the reference readers return (Python's `gzip` module, hence numcodecs' `GZip.decode`;
+    gzip(1)).  The empty input is not a gzip file.  (Python additionally skips ZERO bytes after a member, "gzip files
+    can be padded with zeroes"; that is outside RFC 1952 and outside this reader: zero padding is rejected here.) -/
+def gunzipAll (bs : Bytes) : Option Bytes := gunzipAllAux (bs.length + 1) bs
+
 /-- zlib stream (RFC 1950): no preset dictionary, Adler-32 checked -/
 def unzlib (bs : Bytes) : Option Bytes :=
   match bs with
